@@ -337,14 +337,13 @@ func lexCase(ctx *report.Ctx, c *explore.Chooser, partName, input string, nontri
 }
 
 func runC20(ctx *report.Ctx) {
-	if ctx.Replay == nil {
-		// the container searches are small: worker 0 runs the queue, worker 1 the stack
-		if ctx.ShardIndex == 0 {
-			runQueueBFS(ctx, 32)
-		}
-		if ctx.ShardIndex == 1%ctx.ShardCount {
-			runStackBFS(ctx, 7, 12)
-		}
+	// the container searches are small: worker 0 runs the queue, worker 1 the stack; a replay of a
+	// container violation re-runs the search (it is deterministic and takes well under a second)
+	if (ctx.Replay == nil && ctx.ShardIndex == 0) || (ctx.Replay != nil && ctx.Replay.Part == "Q") {
+		runQueueBFS(ctx, 32)
+	}
+	if (ctx.Replay == nil && ctx.ShardIndex == 1%ctx.ShardCount) || (ctx.Replay != nil && ctx.Replay.Part == "K") {
+		runStackBFS(ctx, 7, 12)
 	}
 	alphabet := []string{"a", "1", " ", "\n", "\t", "-", ">", "<", "{", "}", "#", "=", ":", "\\", "/", "\"", "$", "(", "\xc3\xa9", "\r"}
 	maxLen := report.Pick(ctx, 4, 5)
